@@ -84,6 +84,8 @@ pub struct Knobs {
     pub extreme_rewards: bool,
     /// one LP keeps filling every slot of one tick array (container-full boundary)
     pub saturate_array: bool,
+    /// a Byzantine liquidity provider takes part in the history
+    pub attacker: bool,
     /// only the v2 instructions (needed for Token-2022 mints)
     pub v2_only: bool,
     /// percentage of Token-2022 mints that carry a transfer hook
@@ -116,6 +118,8 @@ pub enum Role {
     MintAuth,
     Admin,
     Creator,
+    /// Byzantine liquidity provider (crafted account lists)
+    Attacker,
 }
 
 #[derive(Clone, Debug)]
@@ -280,6 +284,7 @@ pub fn make_knobs(profile: Profile, rng: &mut Rng, thorough: bool) -> Knobs {
         v2_only: false,
         hook_pct: 0,
         saturate_array: false,
+        attacker: false,
         has_rewards: profile == Profile::Rewards || profile == Profile::Byz || profile == Profile::Lifecycle,
         has_admin: profile == Profile::Admin || profile == Profile::Byz,
         lifecycle_pct: match profile {
@@ -293,6 +298,9 @@ pub fn make_knobs(profile: Profile, rng: &mut Rng, thorough: bool) -> Knobs {
     }
     if matches!(profile, Profile::Core | Profile::Rewards | Profile::Lifecycle | Profile::TwoHop) {
         k.saturate_array = rng.chance(1, 8);
+    }
+    if !matches!(profile, Profile::Admin) {
+        k.attacker = rng.chance(1, 2);
     }
     match profile {
         Profile::Rewards => {
@@ -630,6 +638,9 @@ impl Gen {
         if pools.len() >= 2 {
             roles.push(Role::Router);
         }
+        if knobs.attacker {
+            roles.push(Role::Attacker);
+        }
         // reward mints (Rewards profile): authority is the reward super authority's wallet
         let mut reward_mints: Vec<MintInfo> = Vec::new();
         if knobs.has_rewards {
@@ -964,6 +975,7 @@ impl Gen {
             Role::MintAuth => crate::gen2::plan_mint_auth(&self.w, &self.knobs, &mut actor, ledger),
             Role::Admin => crate::gen4::plan_admin(&self.w, &self.knobs, &mut actor, ledger),
             Role::Creator => crate::gen4::plan_creator(&self.w, &self.knobs, &mut actor, ledger, self.clock_now().unix_timestamp),
+            Role::Attacker => crate::gen5::plan_attacker(&self.w, &self.knobs, &mut actor, ledger),
         };
         self.w.actors[id].rng = actor.rng;
         let raw: Vec<HEvent> = RAW_EVENTS.with(|r| std::mem::take(&mut *r.borrow_mut()));
@@ -986,6 +998,7 @@ impl Gen {
             Role::MintAuth => 2_000 + self.rng.below(15_000),
             Role::Admin => 500 + self.rng.below(5_000),
             Role::Creator => 500 + self.rng.below(5_000),
+            Role::Attacker => 800 + self.rng.below(8_000),
         };
         self.push(self.now_ms + next, Ev::Wake(id));
     }
